@@ -339,10 +339,13 @@ def main() -> int:
     ap.add_argument("--tier", default="quick")
     ap.add_argument("--name")
     ap.add_argument("-v", action="store_true")
+    ap.add_argument("--jobs", type=int, default=1)
     a = ap.parse_args()
     sel = [m for m in MUTANTS if (not a.pids or m[0] in a.pids) and (not a.name or a.name == m[1])]
     results = []
-    for pid, name, file, old, new in sel:
+
+    def one(m):
+        pid, name, file, old, new = m
         d = make_copy()
         root = os.path.join(d, "repo")
         t0 = time.time()
@@ -355,13 +358,19 @@ def main() -> int:
         finally:
             shutil.rmtree(d, ignore_errors=True)
         killed = rc == 1 and "VIOLATION property=" in out
-        results.append({"property": pid, "mutant": name, "killed": killed, "rc": rc,
-                        "passes_repo_tests": realistic, "wall_s": round(time.time() - t0, 1)})
         mech = [l for l in out.splitlines() if "mechanism=" in l][:2]
-        print(f"{pid} {name:32s} {'KILLED' if killed else 'SURVIVED rc=' + str(rc):14s} tests={'-' if realistic is None else ('pass' if realistic else 'FAIL')} "
-              f"{time.time() - t0:5.1f}s {mech[0].strip()[:110] if mech else ''}")
+        line = (f"{pid} {name:32s} {'KILLED' if killed else 'SURVIVED rc=' + str(rc):14s} tests={'-' if realistic is None else ('pass' if realistic else 'FAIL')} "
+                f"{time.time() - t0:5.1f}s {mech[0].strip()[:110] if mech else ''}")
         if a.v and not killed:
-            print(out)
+            line += "\n" + out
+        return {"property": pid, "mutant": name, "killed": killed, "rc": rc, "passes_repo_tests": realistic,
+                "wall_s": round(time.time() - t0, 1)}, line
+
+    from concurrent.futures import ThreadPoolExecutor
+    with ThreadPoolExecutor(max_workers=max(1, a.jobs)) as ex:
+        for res, line in ex.map(one, sel):
+            results.append(res)
+            print(line, flush=True)
     surv = [r for r in results if not r["killed"]]
     print(f"{len(results) - len(surv)}/{len(results)} mutants killed")
     return 1 if surv else 0
